@@ -398,6 +398,16 @@ func c20Run(c c20Case) verifkit.Result {
 			break
 		}
 	}
+	total := 0
+	for _, p := range c.Props {
+		total += len(p.Name) + len(p.Value) + len(p.Signature)
+	}
+	switch {
+	case total > 4096:
+		labels = append(labels, "props-total>4KiB")
+	case total > 2048:
+		labels = append(labels, "props-total>2KiB")
+	}
 	if signed {
 		labels = append(labels, "prop-signed")
 	}
@@ -487,6 +497,14 @@ func c20GenProps(t *rapid.T) []c20Prop {
 		}
 		if rapid.Bool().Draw(t, "signed") {
 			p.Signature = rapid.OneOf(c20GenText(700), rapid.StringOfN(rapid.SampledFrom(c20B64), 1, 8, -1)).Draw(t, "psig")
+		}
+		if rapid.IntRange(0, 2).Draw(t, "realisticSkin") == 0 {
+			// what a real Mojang-signed skin looks like: a base64 value of several
+			// hundred to a few thousand characters and a 684 character signature, so
+			// that whole payloads cross the 2 KiB / 4 KiB buffer sizes
+			p.Name = "textures"
+			p.Value = rapid.StringOfN(rapid.SampledFrom(c20B64), 400, 2600, -1).Draw(t, "skinValue")
+			p.Signature = rapid.StringOfN(rapid.SampledFrom(c20B64), 684, 684, -1).Draw(t, "skinSig")
 		}
 		out = append(out, p)
 	}
